@@ -854,17 +854,19 @@ func c38GenScript(t *rapid.T) c38Script {
 
 func c38GenCase(t *rapid.T) c38Case {
 	c := c38Case{IntervalMs: rapid.SampledFrom([]int{5, 10, 10, 25}).Draw(t, "interval")}
-	n := 6
+	// mostly full batches; listed smallest first so that shrinking drops scripts
+	sizes := []int{1, 2, 3, 4, 5, 6, 6, 6, 6, 6, 6, 6, 6, 6, 6}
 	if verifkit.Thorough() {
-		n = 8
+		sizes = []int{1, 2, 4, 6, 8, 8, 8, 8, 8, 8, 8, 8, 8, 8}
 	}
+	n := rapid.SampledFrom(sizes).Draw(t, "scripts")
 	for i := 0; i < n; i++ {
 		c.Scripts = append(c.Scripts, c38GenScript(t))
 	}
 	return c
 }
 
-const c38Rule = "batches of 6 (thorough 8) scripts run in parallel, each against its own real file and watch loop (fake eventWatcher, reconcile interval 5/10/25 ms, production debounce 100 ms): 1..8 operations {write, atomic replace, delete, recreate} over contents {a,b,c,missing} anchored to delays 0..130 ms or to 'inside callback k before/after it reads the file', each notification delivered / dropped / triplicated / delayed by 0..2 steps; shapes: random, X->Y->X inside a debounce window, bursts, settle-per-change phases, change during the callback, ABA around the callback's read. Oracles: eventual delivery after generous wait + liveness proof + re-wait; callback with the file untouched; callback for provably already evaluated content (order-only knowledge from delivered notification + marker event); no overlapping callbacks. Latency is measured, never judged. non-trivial = batch contains a script with >=1 dropped notification and a change back to an earlier content"
+const c38Rule = "batches of up to 6 (thorough 8) scripts run in parallel, each against its own real file and watch loop (fake eventWatcher, reconcile interval 5/10/25 ms, production debounce 100 ms): 1..8 operations {write, atomic replace, delete, recreate} over contents {a,b,c,missing} anchored to delays 0..130 ms or to 'inside callback k before/after it reads the file', each notification delivered / dropped / triplicated / delayed by 0..2 steps; shapes: random, X->Y->X inside a debounce window, bursts, settle-per-change phases, change during the callback, ABA around the callback's read. Oracles: eventual delivery after generous wait + liveness proof + re-wait; callback with the file untouched; callback for provably already evaluated content (order-only knowledge from delivered notification + marker event); no overlapping callbacks. Latency is measured, never judged. non-trivial = batch contains a script with >=1 dropped notification and a change back to an earlier content"
 
 func TestVerif_C38(t *testing.T) {
 	verifkit.Check(t, "C38", "reload", c38Rule, c38GenCase, c38RunCase)
